@@ -4,6 +4,8 @@ import (
 	"bytes"
 	"fmt"
 	"strings"
+
+	"github.com/btcsuite/btcd/wire"
 	"time"
 
 	sdk "github.com/cosmos/cosmos-sdk/types"
@@ -76,11 +78,22 @@ func (w *World) oracleRelayer(bi *BlockInfo) {
 	seq := prev.Relayer.Sequence
 	acceptedVoted := 0
 	anyRelayerOK := false
-	btcTip := m.Btc.Tip // voted bitcoin tip before each transaction (oracleBitcoin runs after this oracle)
+	btcTip := m.Btc.Tip          // voted bitcoin tip before each transaction (oracleBitcoin runs after this oracle)
+	touched := map[uint64]bool{} // withdrawal ids named by earlier relayer transactions of this block
+	var earlier []sdk.Msg
 	for i, msgs := range bi.TxMsgs {
 		if i >= len(bi.TxRes) || msgs == nil {
 			continue
 		}
+		for _, em := range earlier {
+			for _, id := range withdrawalIDsOf(em) {
+				touched[id] = true
+			}
+			if _, isKey := em.(*bitcointypes.MsgNewPubkey); isKey {
+				touched[^uint64(0)] = true // the relayer key may have rotated within this block
+			}
+		}
+		earlier = msgs
 		ok := bi.TxRes[i].Code == 0
 		h := txHash(b.Txs[i])
 		if ok {
@@ -90,10 +103,16 @@ func (w *World) oracleRelayer(bi *BlockInfo) {
 				}
 			}
 			w.Stats.TxOK++
+			if len(msgs) > 1 {
+				w.probe("multi-message-transaction-accepted")
+			}
 		} else if i > 0 {
+			if len(msgs) > 1 {
+				w.probe("multi-message-transaction-failed")
+			}
 			w.Stats.TxFail++
 		}
-		for _, mm := range msgs {
+		for mi, mm := range msgs {
 			vm, voted := votedMsg(mm)
 			if !voted {
 				if reg, isReg := mm.(*relayertypes.MsgNewVoterRequest); isReg && ok {
@@ -105,12 +124,21 @@ func (w *World) oracleRelayer(bi *BlockInfo) {
 			}
 			w.Stats.OracleEvals["C01"]++
 			truth := rs.Truth[h]
+			if tm := rs.TruthMulti[h]; tm != nil {
+				truth = nil
+				if mi < len(tm) {
+					truth = tm[mi]
+				}
+			}
 			vote := vm.GetVote()
 			if !ok {
 				if truth != nil && truth.Honest && truth.Epoch == prel.Epoch && truth.Seq == seq && truth.Proposer == prel.Proposer {
 					w.probe("honest-vote-rejected-in-context")
 					if hm, isH := mm.(*bitcointypes.MsgNewBlockHashes); isH && hm.StartBlockNumber == btcTip+1 && truth.Variant == "" {
 						w.violate("C01", "legit-proposal-rejected", "legit-rejected", "height %d tx %d: an honestly voted block-hash proposal (epoch %d seq %d, %d signers of %d+1) was rejected: %s", b.Height, i, truth.Epoch, truth.Seq, len(truth.Signers), n, bi.TxRes[i].Log)
+					}
+					if pm, isP := mm.(*bitcointypes.MsgProcessWithdrawal); isP && truth.Variant == "" && len(msgs) == 1 {
+						w.checkRejectedProcessing(bi, i, pm, prev, touched)
 					}
 				}
 				continue
@@ -206,6 +234,16 @@ func (w *World) oracleRelayer(bi *BlockInfo) {
 		w.violate("C02", "randao-mismatch", "randao", "height %d: randomness accumulator changed=%v with %d accepted voted proposals", b.Height, changed, acceptedVoted)
 	}
 
+	// C02: the proposer-accepted flag is raised only by a relayer-module transaction that took
+	// effect (an acceptance, or the first accepted message of the proposer); a rejected or failed
+	// one leaves it as it was
+	if crelx := cur.Relayer.Relayer; !prel.ProposerAccepted && crelx.ProposerAccepted && crelx.Epoch == prel.Epoch && !anyRelayerOK {
+		w.violate("C02", "accepted-flag-raised-without-accepted-message", "accepted-flag", "height %d: the proposer-accepted flag went false -> true in epoch %d although no relayer or bridge transaction succeeded in this block", b.Height, prel.Epoch)
+	}
+	if crelx := cur.Relayer.Relayer; prel.ProposerAccepted && !crelx.ProposerAccepted && crelx.Epoch == prel.Epoch {
+		w.violate("C02", "accepted-flag-dropped-without-election", "accepted-flag-dropped", "height %d: the proposer-accepted flag went true -> false within epoch %d", b.Height, prel.Epoch)
+	}
+
 	// C16: elections and group shape
 	w.Stats.OracleEvals["C16"]++
 	crel := cur.Relayer.Relayer
@@ -297,6 +335,71 @@ func (w *World) oracleRelayer(bi *BlockInfo) {
 	}
 }
 
+// withdrawalIDsOf: the withdrawal ids a relayer message names.
+func withdrawalIDsOf(m sdk.Msg) []uint64 {
+	switch t := m.(type) {
+	case *bitcointypes.MsgProcessWithdrawal:
+		return t.Id
+	case *bitcointypes.MsgApproveCancellation:
+		return t.Id
+	}
+	return nil
+}
+
+// checkRejectedProcessing: the completeness side of C05 / C17. An honestly built, honestly voted
+// processing proposal that is executed in the context it was signed for, names only withdrawals
+// that were pending before the block and that nothing else in the block touched, and satisfies
+// every term by the reference checks (decoded script, amount, fee ceiling, change to the current
+// key) must be accepted — otherwise a chain that refuses every payout would look sound.
+func (w *World) checkRejectedProcessing(bi *BlockInfo, txi int, pm *bitcointypes.MsgProcessWithdrawal, prev *Snap, touched map[uint64]bool) {
+	b := bi.B
+	if prev == nil || prev.Wd == nil || len(pm.Id) == 0 || touched[^uint64(0)] || pm.Validate() != nil {
+		return // (stateless validity - zero fee, sizes, id count - is not what is judged here)
+	}
+	named := map[uint64]bool{}
+	if bi.MsgOK && bi.ReqErr == nil {
+		for _, r := range bi.Bridge.ReplaceByFees {
+			named[r.Id] = true
+		}
+		for _, c := range bi.Bridge.Cancel1s {
+			named[c.Id] = true
+		}
+	}
+	seen := map[uint64]bool{}
+	for _, id := range pm.Id {
+		pw := prev.Wd[id]
+		if pw == nil || pw.Status != bitcointypes.WITHDRAWAL_STATUS_PENDING || named[id] || touched[id] || seen[id] {
+			return
+		}
+		seen[id] = true
+	}
+	tx := new(wire.MsgTx)
+	if err := tx.DeserializeNoWitness(bytes.NewReader(pm.NoWitnessTx)); err != nil {
+		return
+	}
+	good := true
+	fail := func(string, string, ...any) { good = false }
+	// the payout is judged against the state before the block (statuses and ceilings did not move)
+	saved := w.M.Cur
+	w.M.Cur = prev
+	w.checkPayoutOutputs(bi, txi, pm.Id, tx, pm.NoWitnessTx, pm.TxFee, fail, &candTx{}, "rejected-process")
+	w.M.Cur = saved
+	if !good {
+		return
+	}
+	w.Stats.OracleEvals["C05"]++
+	log := bi.TxRes[txi].Log
+	w.violate("C05", "honest-processing-rejected", "process-rejected", "height %d tx %d: an honestly voted payout of pending withdrawals %v that meets every term was rejected: %s", b.Height, txi, pm.Id, log)
+	if strings.Contains(log, "script") || strings.Contains(log, "address") {
+		w.Stats.OracleEvals["C17"]++
+		addrs := []string{}
+		for _, id := range pm.Id {
+			addrs = append(addrs, prev.Wd[id].Address)
+		}
+		w.violate("C17", "standard-address-not-payable", "script-refused", "height %d tx %d: the payout pays exactly the scripts of %v and was refused: %s", b.Height, txi, addrs, log)
+	}
+}
+
 // genesisSnapLike builds the "previous" relayer view for block 1 from the genesis configuration.
 func (w *World) genesisSnapLike(cur *Snap) *Snap {
 	s := &Snap{Height: 0, Relayer: &relayertypes.GenesisState{Params: cur.Relayer.Params, Sequence: 0, Randao: sha([]byte("randao"), u64le(w.Seed))},
@@ -376,7 +479,18 @@ func (w *World) finalRelayerChecks() {}
 
 // admissible evaluates the statement's conjunction for a decoded transaction against the
 // relayer proposer the deciding state has.
-func (w *World) admissible(tx sdk.Tx, proposer string, height int64, inBlock bool, first bool) (bool, string) {
+func (w *World) admissible(tx sdk.Tx, proposer string, height int64, inBlock bool, first bool) (ok bool, why string) {
+	// bytes that decode to a transaction without body or auth info (e.g. zero bytes) make the SDK's
+	// accessors panic: such a thing is not an admissible transaction
+	defer func() {
+		if r := recover(); r != nil {
+			ok, why = false, "malformed transaction (no body / auth info)"
+		}
+	}()
+	return w.admissibleInner(tx, proposer, height, inBlock, first)
+}
+
+func (w *World) admissibleInner(tx sdk.Tx, proposer string, height int64, inBlock bool, first bool) (bool, string) {
 	st, ok := tx.(interface {
 		sdk.TxWithMemo
 		sdk.TxWithTimeoutHeight
